@@ -1,6 +1,8 @@
 """Dumb renderers: abstract statements (as printed by the TLA+ generators) to
 naken_asm source text.  No knowledge of expected results lives here."""
 
+import os
+
 DIG = "0123456789abcdef"
 STR_ESC = {10: "\\n", 13: "\\r", 9: "\\t", 34: '\\"', 92: "\\\\", 0: "\\0"}
 
@@ -47,6 +49,20 @@ def render_item(it):
 DATA_NAMES = {1: [".db", ".dc8"], 2: [".dw", ".dc16"], 4: [".dc32", ".dl", ".dd"], 8: [".dc64", ".dq"]}
 
 
+def bin_file(data):
+    """a file holding exactly these bytes (named by its content, written once)"""
+    from . import common as C
+    d = os.path.join(C.VERIF, ".build", "binfiles")
+    path = os.path.join(d, "b_%s.bin" % (data.hex() or "empty"))
+    if not os.path.exists(path):
+        os.makedirs(d, exist_ok=True)
+        tmp = "%s.%d" % (path, os.getpid())
+        with open(tmp, "wb") as fh:
+            fh.write(data)
+        os.replace(tmp, path)
+    return path
+
+
 def render_stmt(s, variant=0):
     k = s["k"]
     if k == "org":
@@ -67,6 +83,8 @@ def render_stmt(s, variant=0):
         return "%s %d" % (".align" if s["bits"] else ".align_bytes", s["n"])
     if k == "fill":
         return ".data_fill %s, %d" % (render_word(s["v"]), s["n"])
+    if k == "bin":
+        return '.binfile "%s"' % bin_file(bytes(s["b"]))
     if k == "endian":
         return ".big_endian" if s["big"] else ".little_endian"
     if k == "label":
